@@ -26,7 +26,10 @@ CFGS = {
     "fast": {"cc": "gcc", "flags": ["-O2", "-g1", "-DNDEBUG"]},
     "asan": {"cc": "gcc", "flags": ["-O1", "-g", "-fno-omit-frame-pointer",
                                     "-fsanitize=address", "-fsanitize=" + UBSAN_SUBSET,
-                                    "-fno-sanitize-recover=all"]},
+                                    "-fno-sanitize-recover=all",
+                                    # MIR's interpreter and its bstart/bend builtins move the stack pointer behind the compiler's
+                                    # back, which leaves stale alloca red zones and makes ASan report false dynamic-stack-buffer-overflows
+                                    "--param", "asan-instrument-allocas=0"]},
     "tsan": {"cc": "gcc", "flags": ["-O1", "-g", "-fsanitize=thread"]},
     "noinl": {"cc": "gcc", "flags": ["-O2", "-g1", "-DNDEBUG", "-DMIR_MAX_INSNS_FOR_INLINE=0",
                                      "-DMIR_MAX_INSNS_FOR_CALL_INLINE=0"]},
@@ -100,7 +103,9 @@ def _locked(path):
 
 
 def cfg_dir(cfg, repo=None):
-    return os.path.join(BUILD_ROOT, src_hash(repo), cfg)
+    base = cfg[4:] if cfg.startswith("hdr-") else cfg
+    tag = hashlib.sha1(repr((BASE, CFGS.get(base))).encode()).hexdigest()[:6]  # flag changes rebuild too
+    return os.path.join(BUILD_ROOT, src_hash(repo), "%s-%s" % (cfg, tag))
 
 
 def cfg_flags(cfg):
